@@ -80,6 +80,9 @@ func classify(r *evid.Recorder, c Case) {
 		if m.Yaml != nil || m.Lock != nil {
 			r.Class("module-with-v1-objects")
 		}
+		if len(m.Twins) > 0 {
+			r.Class("module-depending-on-a-fork-of-a-dependency")
+		}
 	}
 	if edges > 0 {
 		r.Class("graph-with-deps")
